@@ -581,15 +581,16 @@ class World(EventDispatcher):
         Pending events (in case of disabled dispatching) are not.
         Entities are removed before processors.
         """
-        # Callbacks may delete other entities, or create new ones
-        while self._entities:
+        # Callbacks may delete other entities, or create new ones (those
+        # of the processors too)
+        while self._entities or self._sorted_processors:
             for entity in tuple(self._entities):
                 if entity in self._entities:
                     self.delete_entity(entity, immediate=True)
-        self._dead_entities.clear()
+            self._dead_entities.clear()
 
-        for processor in tuple(self._sorted_processors):
-            self.remove_processor(type(processor))
+            for processor in tuple(self._sorted_processors):
+                self.remove_processor(type(processor))
 
         self.id_generator = self.id_generator_factory()
 
